@@ -77,11 +77,11 @@ type c04Row struct {
 // ---- concretisation ----
 
 type concFrame struct {
-	bytes     []byte // wire bytes
-	hdrLen    int
-	plain     []byte // application bytes this frame contributes (uncompressed data frames, control payloads)
-	isData    bool
-	msg       int // index into concStream.msgs for data frames of a recognised message, else -1
+	bytes  []byte // wire bytes
+	hdrLen int
+	plain  []byte // application bytes this frame contributes (uncompressed data frames, control payloads)
+	isData bool
+	msg    int // index into concStream.msgs for data frames of a recognised message, else -1
 }
 
 type concMsg struct {
@@ -125,9 +125,26 @@ type variant struct {
 	Final   bool   `json:"bfinal"`
 	ReadBuf int    `json:"readbuf"`
 	API     string `json:"api"` // reader | read
+	// Scale > 0 replaces the 5-byte payload of data letters by Scale incompressible bytes
+	// (sizes around the library's internal buffer sizes and the framing boundaries)
+	Scale int `json:"scale,omitempty"`
+}
+
+func rawRandom(seed int64, i, n int) []byte {
+	b := make([]byte, n)
+	rand.New(rand.NewSource(seed*131 + int64(i))).Read(b)
+	return b
 }
 
 func concretise(ls []letter, v variant, seed int64) concStream {
+	if v.Scale > 0 {
+		ls = append([]letter(nil), ls...)
+		for i := range ls {
+			if ls[i].Op <= 2 && ls[i].Len == 5 {
+				ls[i].Len = v.Scale
+			}
+		}
+	}
 	var cs concStream
 	mode := ws.Mode(v.Mode)
 	peerMasks := !v.Client
@@ -172,7 +189,9 @@ func concretise(ls []letter, v variant, seed int64) concStream {
 		mi := len(cs.msgs)
 		for _, g := range group {
 			msgOf[g] = mi
-			if comp {
+			if comp && v.Scale > 0 {
+				m.plain = append(m.plain, rawRandom(seed, g, ls[g].Len)...)
+			} else if comp {
 				m.plain = append(m.plain, zplain(seed, g, ls[g].Len)...)
 			} else {
 				m.plain = append(m.plain, prf(seed, g, ls[g].Len)...)
@@ -260,13 +279,13 @@ type recvObs struct {
 }
 
 type recvCfg struct {
-	v        variant
-	stream   []byte
-	cutAt    int   // -1 = whole stream then EOF
-	endErr   error // nil = EOF
-	limit    *int64
-	limits   []*int64 // per-message SetReadLimit before reading message k (nil = keep)
-	maxMsgs  int
+	v       variant
+	stream  []byte
+	cutAt   int   // -1 = whole stream then EOF
+	endErr  error // nil = EOF
+	limit   *int64
+	limits  []*int64 // per-message SetReadLimit before reading message k (nil = keep)
+	maxMsgs int
 }
 
 func runRecv(cfg recvCfg, rng *rand.Rand) (o recvObs) {
@@ -600,7 +619,21 @@ func init() {
 		modesOn := fs.String("modes-on", "ct,nct", "modes used with rows-on")
 		bfinal := fs.Bool("bfinal", true, "also end compressed messages with a BFINAL=1 block")
 		maxRows := fs.Int("max-rows", 0, "sample at most this many rows per file (0 = all)")
+		sizes := fs.String("sizes", "", "comma list of a-b ranges: payload sizes for the carrier rows (buffer and framing boundaries)")
 		fs.Parse(args)
+		var sizeList []int
+		for _, r := range splitComma(*sizes) {
+			var a, b int
+			if n, _ := fmt.Sscanf(r, "%d-%d", &a, &b); n == 2 {
+				for x := a; x <= b; x++ {
+					sizeList = append(sizeList, x)
+				}
+			}
+		}
+		carriers := map[string]bool{}
+		for _, c := range [][]string{{"ZT1", "T1"}, {"ZT1", "ZT1"}, {"ZB0", "C1", "T1"}, {"ZB0", "C1e", "B1"}, {"ZT1", "PING3"}, {"T1", "T1"}, {"T0", "C1", "T1"}, {"B0", "C0", "C1"}} {
+			carriers[fmt.Sprint(c)] = true
+		}
 		lm, err := loadLetters(*lettersPath)
 		if err != nil {
 			return err
@@ -619,7 +652,7 @@ func init() {
 			k := 0
 			return readNDJSON(path, func(b []byte) error {
 				k++
-				if *maxRows > 0 && (int64(k)*2654435761+*seed)%int64(1+k / *maxRows) != 0 && k > *maxRows {
+				if *maxRows > 0 && (int64(k)*2654435761+*seed)%int64(1 + k / *maxRows) != 0 && k > *maxRows {
 					return nil
 				}
 				row := &c03Row{}
@@ -649,6 +682,28 @@ func init() {
 						}
 					}
 				}
+				if sizeList != nil && carriers[fmt.Sprint(row.Names)] {
+					unlimited := int64(-1)
+					for _, client := range []bool{false, true} {
+						for _, mode := range modes {
+							for _, sz := range sizeList {
+								for _, fin := range []bool{false, true} {
+									if fin && (mode == "off" || !hasComp(ls)) {
+										continue
+									}
+									v := variant{Client: client, Mode: mode, Chunk: "whole", Final: fin, ReadBuf: 4096, API: "reader", Scale: sz}
+									id := caseID{Names: row.Names, V: v, Seed: *seed}
+									jobs <- func(rng *rand.Rand) {
+										cs := concretise(ls, v, id.Seed)
+										o := runRecv(recvCfg{v: v, stream: cs.bytes, cutAt: -1, limit: &unlimited}, rng)
+										checkC03(rep, id, lsScaled(ls, v.Scale), row, &cs, &o)
+										atomic.AddInt64(&evals, 1)
+									}
+								}
+							}
+						}
+					}
+				}
 				dmu.Lock()
 				distinct[fmt.Sprint(row.Names)] = true
 				dmu.Unlock()
@@ -667,6 +722,16 @@ func init() {
 		rep.print()
 		return nil
 	}
+}
+
+func lsScaled(ls []letter, scale int) []letter {
+	out := append([]letter(nil), ls...)
+	for i := range out {
+		if out[i].Op <= 2 && out[i].Len == 5 {
+			out[i].Len = scale
+		}
+	}
+	return out
 }
 
 func hasComp(ls []letter) bool {
